@@ -239,6 +239,11 @@ class Interp:
             return Unk("len")
         return len(v)
 
+    def _iterable(self, v):
+        if isinstance(v, Obj) and "__iter__" in v.methods:
+            return list(v.methods["__iter__"]())
+        return v
+
     def _hasattr(self, v, name):
         if isinstance(v, Unk):
             return Unk("hasattr")
@@ -770,7 +775,7 @@ class Interp:
                 name = un(exc).split(".")[-1]
             raise Raised(name, st)
         elif isinstance(st, ast.For):
-            it = self.eval(st.iter, env)
+            it = self._iterable(self.eval(st.iter, env))
             if isinstance(it, (Unk, T, Obj)):
                 raise NoValue(f"loop over unknown iterable {un(st.iter)}")
             broke = False
@@ -1072,7 +1077,7 @@ class Interp:
                     results.append(self.eval(node.elt, sub))
                 return
             g = node.generators[i]
-            it = self.eval(g.iter, sub)
+            it = self._iterable(self.eval(g.iter, sub))
             if isinstance(it, (Unk, T, Obj)):
                 raise NoValue(f"comprehension over unknown iterable {un(g.iter)}")
             for x in list(it):
